@@ -307,6 +307,23 @@ def run_shards_optimised(modname, fn, kwargs_list):
     return total
 
 
+def compact_samples(samples, each=4000, total=60000):
+    """Samples are for a reader: small ones are kept as they are, smaller ones first; a case whose JSON is longer than `each`
+    characters is represented by its beginning, its size and its digest (replays and regressions hold complete cases).
+    The whole list stays below `total` characters so that the evidence file remains a small, valid document."""
+    out, used = [], 0
+    for c in sorted(samples, key=lambda c: len(json.dumps(c, default=str))):
+        txt = json.dumps(c, default=str)
+        if len(txt) > each:
+            c = {"sample_too_long_to_print": True, "json_characters": len(txt), "digest": jdigest(c), "begins": txt[:each // 2]}
+            txt = json.dumps(c)
+        if used + len(txt) > total and out:
+            break
+        out.append(c)
+        used += len(txt)
+    return out
+
+
 # ---------------------------------------------------------------------------
 # context of one check run
 
@@ -343,7 +360,7 @@ class Ctx:
             "evaluations": st.evaluations,
             "distinct_nontrivial": len(st.nontrivial),
             "rule": self.rule,
-            "samples": st.samples[:12],
+            "samples": compact_samples(st.samples[:12]),
             "labels": dict(sorted(st.labels.items())),
             "excluded_by_known_finding": dict(st.excluded),
             "inconclusive": dict(st.inconclusive),
